@@ -222,6 +222,64 @@ Proof. change seed_added_in_place with true. exact final_grad_total. Qed.
 Goal True. idtac "ASSUMPTIONS grad_accumulation_never_fails". Abort.
 Print Assumptions grad_accumulation_never_fails.
 
+(* ---- layers with state (BatchNorm1d/2d): histories -------------------------------------------------------------------------- *)
+(* stateful_rows: every constructor configuration of the classes whose forward changes attributes of self - BatchNorm,
+   BatchNorm1d, BatchNorm2d x momentum in {a float, None (cumulative average)} x affine x track_running_stats x
+   dtype in {None (float32), the input's dtype}.  State = all attributes (running_mean / running_var are rebound by the
+   batch_norm wrapper to what the kernel returns; num_batches_tracked is incremented; the averaging factor
+   `1.0 / float(self.num_batches_tracked)` is a weak Python float).
+   For every configuration whose buffers and parameters have dtype d, and EVERY history h of training / eval forwards
+   (any number, any interleaving; in particular n >= 0 training forwards followed by an eval forward) on inputs of dtype d:
+   every output of every call has dtype d and all floating buffers / parameters still have dtype d afterwards.
+   Proof: the set of reachable states is computed and checked closed by vm_compute (one-step lemma, finite), the
+   statement for all histories follows by induction on h (Proofs/DtypeProofs.v history_invariant). *)
+Theorem batchnorm_history_keeps_dtype :
+  forall r, In r stateful_rows -> forall d, In d [F32; F64] ->
+    forallb (good_state d) (sl_init_states gen_cfg d d r) = true ->
+    forall h : list bool,
+      let res := sl_run gen_cfg r (map (fun tr => (tr, Np d KArray)) h) (sl_init_states gen_cfg d d r) in
+      forallb (all_dtype d) (fst res) = true /\ forallb (good_state d) (snd res) = true.
+Proof.
+  intros r Hr d Hd Hg h.
+  pose proof (forallb_In _ _ sl_rows_ok_true r Hr) as H. unfold sl_row_ok2 in H. apply andb_true_iff in H. destruct H as [H32 H64].
+  destruct Hd as [<-|[<-|[]]]; [exact (sl_row_history r F32 H32 Hg h) | exact (sl_row_history r F64 H64 Hg h)].
+Qed.
+Goal True. idtac "ASSUMPTIONS batchnorm_history_keeps_dtype". Abort.
+Print Assumptions batchnorm_history_keeps_dtype.
+
+Definition sl_find (n : string) : slrow :=
+  hd (mkSL "" [] DRaise DRaise) (filter (fun r => str_eqb (sl_name r) n) stateful_rows).
+
+(* non-vacuity: 48 configurations; the hypothesis holds for all of them with d = F32 ... (float32 layers and layers built
+   with dtype=float32) and for the float64-built ones with d = F64; initial states exist; a concrete history:
+   BatchNorm1d(momentum=None), float32, train, train, eval *)
+Example batchnorm_history_nonvacuous :
+  List.length stateful_rows = 48 /\
+  forallb (fun r => negb (is_nil (sl_init_states gen_cfg F32 F32 r)) && forallb (good_state F32) (sl_init_states gen_cfg F32 F32 r)) stateful_rows = true /\
+  List.length (filter (fun r => forallb (good_state F64) (sl_init_states gen_cfg F64 F64 r)) stateful_rows) = 30 /\
+  (let r := sl_find "BatchNorm1d#14" in
+   sl_ctor r = [AFix PyInt; AFix PyFloat; AFix NoneV; AFix (PyBool (Some true)); AFix (PyBool (Some true)); AFix NoneV] /\
+   fst (sl_run gen_cfg r [(true, Np F32 KArray); (true, Np F32 KArray); (false, Np F32 KArray)] (sl_init_states gen_cfg F32 F32 r))
+     = [[Np F32 KArray]; [Np F32 KArray]; [Np F32 KArray]]).
+Proof. vm_compute. repeat split; reflexivity. Qed.
+
+(* NOT constrained (input dtype differs from the layer's buffers), recorded: the statistics follow the INPUT of a training
+   forward, and a later eval forward follows the statistics.
+   (1) float32 layer, float64 training batch: output float64, running statistics become float64; a following eval
+       forward on float32 input returns float64 (history dependence through the buffers);
+   (2) layer built with dtype=float64, float32 input: the training output is float32 or float64 (`x_norm *= gamma` is in
+       place for an ndarray: float32 on the real code), the eval output is float64. *)
+Example mixed_history_promotes :
+  (let r := sl_find "BatchNorm1d#6" in
+   sl_run gen_cfg r [(true, Np F64 KArray); (false, Np F32 KArray)] (sl_init_states gen_cfg F32 F32 r) =
+   ([[Np F64 KArray]; [Np F64 KArray]],
+    [TupV [PyBool (Some true); Np F32 KArray; PyFloat; PyFloat; PyInt; PyInt; Np F64 KEither; Np F64 KEither;
+           PyBool (Some true); Np F32 KArray]])) /\
+  (let r := sl_find "BatchNorm1d#7" in
+   fst (sl_run gen_cfg r [(true, Np F32 KArray); (false, Np F32 KArray)] (sl_init_states gen_cfg F32 F64 r)) =
+   [[Np F32 KArray; Np F64 KArray]; [Np F64 KArray]]).
+Proof. vm_compute. split; reflexivity. Qed.
+
 (* ---- non-vacuity ------------------------------------------------------------------------------------------------------------ *)
 Example tables_nonempty :
   forallb (fun n => existsb (fun r => str_eqb (op_name r) n) (op_rows ++ layer_rows))
